@@ -774,6 +774,23 @@ fn inner_ty(t: &Ty) -> &Ty {
 
 /// A well-formed value for a nested receiver type in which mistakes are injected deeper down.
 fn good_value_with_mistakes(w: &World, ty: &Ty, d: &mut D, depth: usize, st: &mut InputStats, n: usize) -> Syn {
+    // a map whose values are receivers: one entry carries the mistakes (several inside one entry included), the
+    // others are clean
+    if let Ty::Map(t) = inner_ty(ty) {
+        let mut t1: Vec<usize> = vec![];
+        t.recv_ids(&mut t1);
+        if !t1.is_empty() {
+            let k = d.range(1, 3);
+            let bad = d.below(k);
+            let entries = (0..k)
+                .map(|i| {
+                    let v = if i == bad { good_value_with_mistakes(w, t, d, depth + 1, st, n) } else { good_value(w, t, d, depth + 1, st) };
+                    Node::Item(format!("k{}", i), v)
+                })
+                .collect();
+            return Syn::List(entries);
+        }
+    }
     match inner_ty(ty) {
         Ty::Recv(k) => {
             let s = w.spec(*k);
